@@ -777,11 +777,11 @@ class Selector(cssutils.util.Base2):
             typ, val, lin, col = t
             if val == ':' and tokens and self._tokenvalue(tokens[-1]) == ':':
                 # combine ":" and ":"
-                tokens[-1] = (typ, '::', lin, col)
+                tokens[-1] = (typ, '::', tokens[-1][2], tokens[-1][3])
 
             elif typ == 'IDENT' and tokens and self._tokenvalue(tokens[-1]) == '.':
                 # class: combine to .IDENT
-                tokens[-1] = ('class', '.' + val, lin, col)
+                tokens[-1] = ('class', '.' + val, tokens[-1][2], tokens[-1][3])
             elif (
                 typ == 'IDENT'
                 and tokens
@@ -793,7 +793,12 @@ class Selector(cssutils.util.Base2):
                     t = 'pseudo-element'
                 else:
                     t = 'pseudo-class'
-                tokens[-1] = (t, self._tokenvalue(tokens[-1]) + val, lin, col)
+                tokens[-1] = (
+                    t,
+                    self._tokenvalue(tokens[-1]) + val,
+                    tokens[-1][2],
+                    tokens[-1][3],
+                )
 
             elif (
                 typ == 'FUNCTION'
@@ -801,7 +806,7 @@ class Selector(cssutils.util.Base2):
                 and tokens
                 and ':' == self._tokenvalue(tokens[-1])
             ):
-                tokens[-1] = ('negation', ':' + val, lin, tokens[-1][3])
+                tokens[-1] = ('negation', ':' + val, tokens[-1][2], tokens[-1][3])
             elif (
                 typ == 'FUNCTION'
                 and tokens
@@ -812,7 +817,12 @@ class Selector(cssutils.util.Base2):
                     t = 'pseudo-element'
                 else:
                     t = 'pseudo-class'
-                tokens[-1] = (t, self._tokenvalue(tokens[-1]) + val, lin, col)
+                tokens[-1] = (
+                    t,
+                    self._tokenvalue(tokens[-1]) + val,
+                    tokens[-1][2],
+                    tokens[-1][3],
+                )
 
             elif (
                 val == '*'
@@ -824,8 +834,8 @@ class Selector(cssutils.util.Base2):
                 tokens[-1] = (
                     'universal',
                     self._tokenvalue(tokens[-1]) + val,
-                    lin,
-                    col,
+                    tokens[-1][2],
+                    tokens[-1][3],
                 )
             elif val == '*':
                 # universal: "*"
@@ -841,8 +851,8 @@ class Selector(cssutils.util.Base2):
                 tokens[-1] = (
                     'namespace_prefix',
                     self._tokenvalue(tokens[-1]) + '|',
-                    lin,
-                    col,
+                    tokens[-1][2],
+                    tokens[-1][3],
                 )
             elif val == '|':
                 # namespace_prefix: "|"
